@@ -13,7 +13,7 @@ The Go loop has no bound of its own; the model takes a fuel argument and disting
 (`outOfFuel` = the Go loop would still be spinning) from finishing.  C12.runUntil_terminates shows fuel = maxCycles
 always suffices.
 -/
-import SnesVerif.Cpu.Impl
+import SnesVerif.Cpu.InterruptModel
 namespace Sys
 open Cpu
 
@@ -31,24 +31,32 @@ structure RU where
   onpc : List Nat := []
   /-- `OnWDM` invocations (operand), newest first -/
   wdm : List U8 := []
+  /-- `CPU.Interrupt` at the loop head: whatever the caller latched before `RunUntil` for the first `Step` (0 = the zero
+  value of a fresh CPU, which falls through the switch), `interruptNone` after every `Step` -/
+  latch : Nat := 0
 
 inductive Outcome
   | done (r : RU) (reached : Bool)
   | crash (r : RU)
   | outOfFuel (r : RU)
 
-/-- one `CPU.Step()` as seen by the observers: `OnPC` fires before the fetch when a callback is registered at the
-address; `OnWDM` fires from the WDM routine with the operand -/
+/-- one `CPU.Step()` as seen by the observers: `OnPC` fires first, for the address at the loop head, when a callback is
+registered there; then a latched interrupt is entered; then the instruction at the (possibly redirected) PC executes;
+`OnWDM` fires from the WDM routine with the operand -/
 def stepObs (v : Variant) (cbs : List Nat) (r : RU) : Option RU :=
   let pc := pc24 r.s.r
-  let opb := r.s.m.f pc
-  match step v r.s with
+  match service v r.latch r.s with
   | none => none
-  | some (_, s') =>
-    some { s := s', cycles := r.cycles + s'.r.Cycles.toNat, logs := r.logs,
-           execd := (r.cycles, pc) :: r.execd,
-           onpc := if cbs.contains pc then pc :: r.onpc else r.onpc,
-           wdm := if (semOf v opb).proc = .wdm then s'.r.WDM :: r.wdm else r.wdm }
+  | some (_, s1) =>
+    let opb := s1.m.f (pc24 s1.r)
+    match step v s1 with
+    | none => none
+    | some (_, s') =>
+      some { s := s', cycles := r.cycles + s'.r.Cycles.toNat, logs := r.logs,
+             execd := (r.cycles, pc) :: r.execd,
+             onpc := if cbs.contains pc then pc :: r.onpc else r.onpc,
+             wdm := if (semOf v opb).proc = .wdm then s'.r.WDM :: r.wdm else r.wdm,
+             latch := latchNone v }
 
 /-- the Logger.Write at the top of each iteration -/
 def logIt (hasLogger : Bool) (r : RU) : RU := if hasLogger then { r with logs := r.logs + 1 } else r
@@ -66,8 +74,12 @@ def ruLoop (v : Variant) (hasLogger : Bool) (cbs : List Nat) (target max : Nat) 
         | some r' => ruLoop v hasLogger cbs target max fuel r'
     else .done r (pc24 r.s.r == target)
 
-/-- `RunUntil(target, maxCycles)` -/
+/-- `RunUntil(target, maxCycles)` entered with `CPU.Interrupt = latch` -/
+def runUntilL (v : Variant) (hasLogger : Bool) (cbs : List Nat) (target max : Nat) (latch : Nat) (s : St) : Outcome :=
+  ruLoop v hasLogger cbs target max max { s := s, latch := latch }
+
+/-- `RunUntil(target, maxCycles)` with no interrupt pending on entry -/
 def runUntil (v : Variant) (hasLogger : Bool) (cbs : List Nat) (target max : Nat) (s : St) : Outcome :=
-  ruLoop v hasLogger cbs target max max { s := s }
+  runUntilL v hasLogger cbs target max 0 s
 
 end Sys
